@@ -174,9 +174,30 @@ _ADD4 = {
 _ADD4["C11"] += "; untagged destinations with more result columns than fields"
 _ADD4["C15"] += "; a key that expires and is registered again with another value (a later life); a second subscriber joining while a watch event is being delivered (schedule search; known finding)"
 _ADD4["C16"] += "; two adders each cutting a batch of their own and then waiting: each Wait covers the waiter's own task"
+_ADD5 = {
+ "C01": "; a protected function panicking with a nil value",
+ "C02": "; for every Timeout value the http.Server settings the engine derives from it are compared with the guard's deadline (the timeout response must still be writable; known finding)",
+ "C03": "; requests served at the same time (schedule search with data-race-directed points): each gets the answer it gets on its own, in particular its own Allow list",
+ "C04": "; path tamperings a router would consider equivalent (trailing slash, //, /./, /x/../) and an unclean path signed as sent",
+ "C05": "; pointer-to-map / pointer-to-slice kinds; env= holding a duration text; numerals that are decimal only in appearance; the same struct read through unmarshalers of different tag keys in every order (differential)",
+ "C06": "; a node whose Redis is of cluster type (multi-key deletes and their retries key by key)",
+ "C08": "; requests stamped one second earlier than the latest one processed (stragglers among concurrent callers)",
+ "C10": "; removed entries (tombstones) are part of the canonical state in the single-key scenarios (depth-bounded for 3 and 4 slots)",
+ "C11": "; bodies panicking with a runtime error, an error value, a nil error value",
+ "C13": "; two and three lookups at the same time (schedule search): each returns what it returns on its own",
+ "C14": "; concurrent failing completions on a backend whose score is at the bottom of the scale",
+ "C15": "; the first subscriber of another prefix attaching while a reload is under way (schedule search)",
+ "C18": "; ResourceManager.Close with every subset of three closers failing: all are closed exactly once, the error is reported",
+ "C19": "; retention as configured through logx.Config (Setup -> newFileWriter): for every KeepDays x MaxBackups x Rotation x Compress the writer judges a directory of pre-existing backups as the configuration says",
+ "C20": "; the -style flag's way through config.NewConfig (third virtual package): the template reaches the formatter byte for byte, only a blank one is refused",
+}
+for _k, _v in _ADD5.items():
+    _ADD[_k] = _ADD.get(_k, "") + _v
 for _k, _v in _ADD4.items():
     _ADD[_k] = _ADD.get(_k, "") + _v
 for _k, _v in _ADD.items():
     CHECKS[_k]["text"] += _v
-for _k in ("C01", "C02", "C06", "C07", "C08", "C09", "C10", "C14", "C15", "C16", "C17", "C18", "C19"):
+for _k in ("C03", "C13"):
+    CHECKS[_k]["technique"] += "; plus preemption-bounded schedule search (bound 2, thorough 3, happens-before pruning) of the concurrent scenarios on the instrumented real code"
+for _k in ("C01", "C02", "C03", "C06", "C07", "C08", "C09", "C10", "C14", "C15", "C16", "C17", "C18", "C19"):
     CHECKS[_k]["technique"] += "; plain memory accesses of the code under test are announced by the instrumenter, unordered conflicting accesses (vector clocks) become scheduling points and the scenario is explored again, so that racy interleavings are executed and judged by the same oracles"
